@@ -272,6 +272,21 @@ def _c04_tiny():
     return out
 UNITS += _c04_tiny()
 
+# ---------------------------------------------------------------- the reporting epilogue shared by seven more tree planners
+EP_RULES = [
+    (r"lastGoalMotion_ = solution;", "lastGoalMotion_ = solution; lgm_set = true;", 0),
+    (r"std::vector<Motion \*> mpath;", "mpath_n = 0;", 0), (r"mpath\.push_back\(solution\);", "MPATH_PUSH(solution);", 0), (r"solution->parent", "M_parent[solution]", 0),
+    (r"auto path\(std::make_shared<PathGeometric>\(si_\)\);", "path_n = 0;", 0), (r"mpath\.size\(\)", "mpath_n", 0), (r"path->append\(mpath\[i\]->state\);", "PATH_APPEND(mpath[i]);", 0),
+    (r"pdef_->addSolutionPath\(path, approximate, approxdif, (?:getName\(\)|name_)\);", "ADD_SOLUTION(approximate, approxdif);", 0),
+    (r"if \(rmotion->state\)\s*si_->freeState\(rmotion->state\);", "frees++;", 0), (r"si_->freeState\([\w.>-]+\);", "frees++;", 0), (r"delete \w+;", "deletes++;", 0), (r"\bnullptr\b", "NIL", 0),
+]
+for _pl, _f in (("kpiece1", "src/ompl/geometric/planners/kpiece/src/KPIECE1.cpp"), ("est", "src/ompl/geometric/planners/est/src/EST.cpp"), ("projest", "src/ompl/geometric/planners/est/src/ProjEST.cpp"),
+                ("stride", "src/ompl/geometric/planners/stride/src/STRIDE.cpp"), ("rlrt", "src/ompl/geometric/planners/rlrt/src/RLRT.cpp"), ("tsrrt", "src/ompl/geometric/planners/rrt/src/TSRRT.cpp"), ("vfrrt", "src/ompl/geometric/planners/rrt/src/VFRRT.cpp")):
+    UNITS.append(dict(name="c01_%s_report_epilogue" % _pl, template="C01/epilogue.c", mode="plain", entry="h_epilogue", flags=["--bounds-check", "--pointer-check", "--signed-overflow-check", "--conversion-check"], unwind=8, level="bounded",
+                      bound="parent chains of <= 4 motions", backend="minisat", timeout=300, functions=["ompl::geometric::%s::solve (result-reporting epilogue)" % _pl.upper()],
+                      sources=[dict(name="epilogue", file=_f, begin=r"bool solved = false;\s*bool approximate = false;", end=r"return \{solved, approximate\};", rules=EP_RULES, loops={"allow_uncontracted": True}, wrap_braces=False)],
+                      canaries=[dict(name="approximate_flag_dropped", where="body:epilogue", rx=r"approximate = true;", repl=";")]))
+
 # roadmap planners: a new problem definition forgets the old query's start/goal milestones (otherwise the old query's path is reported for the new one) -- units of C03
 def _c03_query_units():
     sp = importlib.util.spec_from_file_location("c03q", os.path.join(os.path.dirname(__file__), "C03.py")); m = importlib.util.module_from_spec(sp)
